@@ -108,7 +108,7 @@ C12)
   rc=$?
   ;;
 C02|C05|C01)
-  generic_standin "$REPO" "$V/standins/diff_standin_test.go" TestGovcStandinDiff diff "real doubleWalkDiff over in-memory walkers vs executable specification of the diff (adds, modifies iff identity differs, top-most deletes only)" "all 725 parent-closed ascending lists over {a, a-b, a/b, a/b/c, ab} x {dir,file} x 2 identities; pairs: seeded 1/16 slice (quick) / all 525625 (thorough); differ in {metadata, none}" "disagreements"
+  generic_standin "$REPO" "$V/standins/diff_standin_test.go" TestGovcStandinDiff diff "real doubleWalkDiff over in-memory walkers vs executable specification of the diff (adds, modifies iff identity differs, top-most deletes only)" "all parent-closed ascending lists over {a, a-b, a/b, a/b/c, ab} and over {a, a/x, b, b/y, c} x {dir,file} x 2 identities; pairs within each universe: seeded 1/16 slice (quick) / all (thorough); differ in {metadata, none}" "disagreements"
   rc=$?
   ;;
 C16)
